@@ -25,8 +25,8 @@ func init() {
 			c.P.Rule = "random families"
 			c.Rapid("lr0", c.Pick(10000, 100000), func(t *rapid.T) {
 				fams := []string{"uniform", "productive", "nullable", "separators", "lalr", "uniform-small"}
-				if rapid.IntRange(0, c.Pick(399, 99)).Draw(t, "heavy") == 0 {
-					// large automata are expensive: one case in 400 (quick) / 100 (thorough)
+				if rare(t, "heavy", c.Pick(300, 100)) {
+					// large automata are expensive: about one case in 300 (quick) / 100 (thorough)
 					fams = []string{"bigauto", "manysyms", "hugerule"}
 				}
 				gc := DrawGrammar(t, fams)
